@@ -9,6 +9,12 @@ import PetgraphModel.Proofs.C06W2List
 import PetgraphModel.Proofs.C06W2Matrix
 import PetgraphModel.Proofs.C06W2Graph
 import PetgraphModel.Theorems.C04
+import PetgraphModel.Theorems.C02
+import PetgraphModel.Theorems.C03
+import PetgraphModel.Proofs.C06W3Stable
+import PetgraphModel.Proofs.C06W3Spec
+import PetgraphModel.Proofs.C06W3AsIs
+import PetgraphModel.Proofs.C06W3Abs
 /-
 C06 — every graph type and adaptor shows one consistent graph through the `visit` traits.
 
@@ -29,6 +35,12 @@ Wave 2 (section "wave 2" below): `C06_consistent_<Type>` — `TableConsistent` o
 MODEL (Model/C06Views.lean) in every state satisfying the type's invariant, hence after every history.  The dumped
 tables of the real crate are in addition judged on every run by `checkTable` (soundness: `C06_checkTable_sound`).
 Only property theorems live here; lemmas are in Proofs/VisitTable.lean.
+
+Wave 3 (section "wave 3" at the end, after an independent audit): the strengthened predicate `TableConsistentS` and the
+restatement of `C06_frozenOwned` against the inner table (the old one is vacuous); `C06_consistent_StableGraph` over the
+C02 storage model; positive theorems about the adaptors AS THE CODE IS (`Cfg.asIs`) for every trait the findings
+D23/D24 do not reach (the theorems `C06_reversed`, `C06_undirectedAdaptor`, `C06_stack` above are about `Cfg.ideal`, the
+adaptors with the two findings repaired); `abs (<type>Table s)` tied to the storage specifications of C01/C02/C03.
 -/
 namespace PetgraphModel.C06T
 open PetgraphModel.Visit
@@ -69,7 +81,12 @@ theorem C06_edgeFiltered (qs : List Nat) (t : Table) (q : ERef → Bool)
 /-- `Frozen` and the `&G` delegation present the identical table. -/
 theorem C06_identity (cfg : Cfg) (t : Table) : applyOp cfg .frozen t = t ∧ applyOp cfg .ref t = t := ⟨rfl, rfl⟩
 
-/-- `Frozen<'_, G>` over the owned graph type: the `&self` traits only, still consistent. -/
+/-- `Frozen<'_, G>` over the owned graph type: the `&self` traits only, still consistent.
+
+SUPERSEDED (audit, wave 3): this statement is VACUOUS — the view has neither `node_identifiers` nor `edge_references`, and
+every clause of `TableConsistent` is relative to those two fields, so the conclusion holds for any table whatsoever
+(`C06_frozenOwned_old_is_vacuous`).  The statements that carry content are `C06_frozenOwned_inner`,
+`C06_frozenOwned_explicit` (judged against the inner table) and `C06_frozenOwned_S` (strengthened predicate). -/
 theorem C06_frozenOwned (qs : List Nat) (t : Table) (h : TableConsistent qs t) : TableConsistent qs (frozenOwned t) :=
   frozenOwned_consistent h
 
@@ -176,9 +193,19 @@ theorem C06_D23_undirected_base_counterexample :
   have := C06_checkTable_complete _ _ h
   revert this; decide
 
-/-- D24 (open): `GetAdjacencyMatrix for Reversed` delegated to the inner graph is not reversed with the rest. -/
+/-- D24 (repaired in /repo; `Cfg.asIs` has the switch off now): `GetAdjacencyMatrix for Reversed`
+delegated unchanged to the inner graph — the recorded behaviour `{ d24 := true }` — is not reversed with
+the rest; looking the reversed edge up is. -/
 theorem C06_D24_counterexample :
-    ¬ TableConsistent [0, 1, 2] (reversed Cfg.asIs w1) ∧ TableConsistent [0, 1, 2] (reversed Cfg.ideal w1) := by
+    ¬ TableConsistent [0, 1, 2] (reversed { d23 := true, d24 := true } w1) ∧
+      TableConsistent [0, 1, 2] (reversed Cfg.ideal w1) ∧ TableConsistent [0, 1, 2] (reversed Cfg.asIs w1) := by
+  refine ⟨?_, C06_checkTable_sound _ _ (by decide), C06_checkTable_sound _ _ (by decide)⟩
+  intro h
+  have := C06_checkTable_complete _ _ h
+  revert this; decide
+
+theorem C06_D24_counterexample_old_shape :
+    ¬ TableConsistent [0, 1, 2] (reversed { d23 := true, d24 := true } w1) ∧ TableConsistent [0, 1, 2] (reversed Cfg.ideal w1) := by
   refine ⟨fun h => ?_, C06_checkTable_sound _ _ (by decide)⟩
   have := C06_checkTable_complete _ _ h
   revert this; decide
@@ -444,5 +471,266 @@ theorem C06_adjBit_injective (n a b a' b' : Nat) (hb : b < n) (hb' : b' < n)
   have ha : a = a' := by rw [← h1, ← h2, h]
   subst ha
   exact ⟨rfl, by omega⟩
+
+/-! ### wave 3 (follow-up to the independent audit of the theorems above)
+
+#### 1. `Frozen<'_, G>` over the owned graph type, against the inner table; the strengthened predicate -/
+
+/-- the audit finding, as a theorem: the conclusion of the old `C06_frozenOwned` needs no hypothesis at all. -/
+theorem C06_frozenOwned_old_is_vacuous (qs : List Nat) (t : Table) : TableConsistent qs (frozenOwned t) := by
+  refine ⟨?_, ?_, ?_, ?_, ?_, ?_, ?_, ?_, ?_, ?_, ?_, ?_, ?_⟩
+  · intro ids hids; cases hids
+  · intro ids hids; cases hids
+  · intro ids hids; cases hids
+  · intro _ ids hids; cases hids
+  all_goals (intro er her; cases her)
+
+/-- `TableConsistent` + the clauses that are judged from data every view has (query nodes, `node_count`, `node_bound`,
+`to_index`/`from_index`, the compact flag, the `EdgeIndexable` round trips and `edge_count`, shape and symmetry of the
+adjacency rows) without reference to the view's own `node_identifiers` / `edge_references` (Proofs/C06W3Spec.lean) -/
+abbrev TableConsistentS := Visit.TableConsistentS
+
+/-- `Frozen<'_, G>` over the owned type forwards the `&self` traits unchanged (every field it has is the inner graph's),
+and — judged with the inner graph's `node_identifiers` / `edge_references` as the ground truth (`groundedIn`) — it
+satisfies EVERY clause of the property: `node_count`, the `NodeIndexable` bound / injectivity / round trip, compactness,
+`edge_count`, the `EdgeIndexable` round trip of every edge, and `is_adjacent` for every ordered pair. -/
+theorem C06_frozenOwned_inner (qs : List Nat) (t : Table) (h : TableConsistent qs t) :
+    TableConsistent qs (groundedIn t (frozenOwned t)) ∧
+    (groundedIn t (frozenOwned t)).ids = t.ids ∧ (groundedIn t (frozenOwned t)).erefs = t.erefs ∧
+    (frozenOwned t).directed = t.directed ∧ (frozenOwned t).nodeCount = t.nodeCount ∧
+    (frozenOwned t).nodeBound = t.nodeBound ∧ (frozenOwned t).toIx = t.toIx ∧ (frozenOwned t).fromIx = t.fromIx ∧
+    (frozenOwned t).compact = t.compact ∧ (frozenOwned t).edgeCount = t.edgeCount ∧
+    (frozenOwned t).edgeBound = t.edgeBound ∧ (frozenOwned t).eix = t.eix ∧ (frozenOwned t).adj = t.adj :=
+  ⟨frozenOwned_grounded h, rfl, rfl, frozenOwned_forwards t⟩
+
+/-- … spelled out without `whenSome` on identifiers / edge references: `ids`, `er` are the inner graph's. -/
+theorem C06_frozenOwned_explicit (qs : List Nat) (t : Table) (ids : List Nat) (er : List ERef)
+    (h : TableConsistent qs t) (hids : t.ids = some ids) (her : t.erefs = some er) :
+    let f := frozenOwned t
+    (∀ n, f.nodeCount = some n → ids.length = n) ∧
+    (∀ a ∈ ids, optBelow (f.toIx.lookup a) f.nodeBound) ∧
+    (ids.map fun a => f.toIx.lookup a).Nodup ∧
+    (∀ a ∈ ids, f.fromIx.lookup a = some a) ∧
+    (f.compact = true → (ids.map fun a => (f.toIx.lookup a).getD f.nodeBound).Perm (List.range f.nodeBound)) ∧
+    (∀ n, f.edgeCount = some n → er.length = n) ∧
+    (∀ l eb, f.eix = some l → f.edgeBound = some eb → ∀ e ∈ er, optRound (l.lookup e.id) e.id eb) ∧
+    (∀ r, f.adj = some r →
+      r.map (·.1) = qs ∧ ∀ a ∈ qs, ∀ b ∈ qs, (b ∈ rowOf r a ↔ expAdj f.directed er a b = true)) :=
+  frozenOwned_explicit h hids her
+
+/-- the strengthened predicate is kept by `Frozen` over the owned type. -/
+theorem C06_frozenOwned_S (qs : List Nat) (t : Table) (h : TableConsistentS qs t) : TableConsistentS qs (frozenOwned t) :=
+  frozenOwned_consistentS h
+
+/-- a base table (its `node_identifiers` are the query nodes, it has `edge_references`, its `EdgeIndexable` queries are
+about exactly the listed edges) that satisfies the property satisfies the strengthened predicate. -/
+theorem C06_consistentS_of_consistent (qs : List Nat) (t : Table) (er : List ERef) (h : TableConsistent qs t)
+    (hids : t.ids = some qs) (her : t.erefs = some er)
+    (heix : ∀ l, t.eix = some l → l.map (·.1) = er.map (·.id)) : TableConsistentS qs t :=
+  consistentS_of_consistent h hids her heix
+
+/-- `Graph` satisfies the strengthened predicate in every state satisfying the C01 invariant … -/
+theorem C06_consistentS_Graph (s : G.State) (h : C01T.Inv s) :
+    TableConsistentS (List.range s.nodes.length) (graphTable s) :=
+  graphTable_consistentS s h
+
+/-- … and so does `Frozen<'_, Graph>` (the harness's `frz0` view), which in addition satisfies every clause judged
+against the graph it freezes — after EVERY history. -/
+theorem C06_frozenOwned_Graph (endv : Nat) (directed : Bool) (ops : List G.Op) :
+    let s := (G.run (G.empty endv directed) ops).1
+    TableConsistentS (List.range s.nodes.length) (frozenOwned (graphTable s)) ∧
+    TableConsistent (List.range s.nodes.length) (groundedIn (graphTable s) (frozenOwned (graphTable s))) := by
+  intro s
+  have hinv : C01T.Inv s := C01T.C01_inv_all_histories endv directed ops
+  exact ⟨frozenOwned_consistentS (graphTable_consistentS s hinv), frozenOwned_grounded (graphTable_consistent s hinv)⟩
+
+/-- the strengthened predicate is NOT vacuous on views without identifiers / edge references: three corruptions of
+`Frozen<'_, Graph>` over the DESIGN witness `w1` — a wrong `node_count`, a `to_index` that is not injective, an adjacency
+matrix with every bit cleared — pass the old predicate; the first two are rejected by `TableConsistentS`, the third by the
+statement against the inner table. -/
+theorem C06_consistentS_not_vacuous :
+    (TableConsistent [0, 1, 2] { frozenOwned w1 with nodeCount := some 7 } ∧
+      ¬ TableConsistentS [0, 1, 2] { frozenOwned w1 with nodeCount := some 7 }) ∧
+    (TableConsistent [0, 1, 2] { frozenOwned w1 with toIx := [(0, 0), (1, 0), (2, 2)] } ∧
+      ¬ TableConsistentS [0, 1, 2] { frozenOwned w1 with toIx := [(0, 0), (1, 0), (2, 2)] }) ∧
+    (TableConsistent [0, 1, 2] { frozenOwned w1 with adj := some [(0, []), (1, []), (2, [])] } ∧
+      ¬ TableConsistent [0, 1, 2] (groundedIn w1 { frozenOwned w1 with adj := some [(0, []), (1, []), (2, [])] })) ∧
+    TableConsistentS [0, 1, 2] (frozenOwned w1) := by
+  refine ⟨⟨C06_checkTable_sound _ _ (by decide), fun h => ?_⟩, ⟨C06_checkTable_sound _ _ (by decide), fun h => ?_⟩,
+    ⟨C06_checkTable_sound _ _ (by decide), fun h => ?_⟩, ?_⟩
+  · have := h.count 7 rfl
+    simp at this
+  · have := h.index.2.1
+    revert this; decide
+  · have := C06_checkTable_complete _ _ h
+    revert this; decide
+  · exact frozenOwned_consistentS (consistentS_of_consistent (er := [⟨0, 1, 0, 1⟩, ⟨1, 1, 2, 2⟩, ⟨2, 0, 0, 3⟩])
+      (C06_checkTable_sound _ _ (by decide)) rfl rfl (by intro l hl; cases hl; rfl))
+
+/-! #### 2. `StableGraph` -/
+
+/-- `StableGraph<N, E, Ty, Ix>` (both edge types, any index width, debug and release): the table computed from the C02
+storage model (`stableTable`, Model/C06Views.lean: identifiers = the live indices, vacancies skipped; `node_bound` /
+`edge_bound` = last live index + 1; not compact-indexable; adjacency bitmap of width `node_bound`) satisfies all
+thirteen clauses in every state satisfying the C02 invariant — vacant slots below the bounds, multigraphs and self-loops
+included, no bound on the ids. -/
+theorem C06_consistent_StableGraph (s : SG.State) (h : C02T.Inv s) :
+    TableConsistent (SG.nodeIndices s) (stableTable s) :=
+  SGW3.stableTable_consistent s h
+
+/-- … hence after EVERY history of public calls of the C02 alphabet on a new graph (which never faults), and the
+run-time judge accepts that table; the strengthened predicate holds too. -/
+theorem C06_consistent_StableGraph_all_histories (directed : Bool) (fin : Nat) (noLimit debug : Bool) (ops : List SG.Op) :
+    ∃ s outs, SG.run (SG.empty directed fin noLimit debug) ops = .ok (s, outs) ∧
+      TableConsistent (SG.nodeIndices s) (stableTable s) ∧ checkTable (SG.nodeIndices s) (stableTable s) = true ∧
+      TableConsistentS (SG.nodeIndices s) (stableTable s) := by
+  obtain ⟨s, outs, hrun, hinv, _⟩ := C02T.C02_all_histories directed fin noLimit debug ops
+  have hc := SGW3.stableTable_consistent s hinv
+  exact ⟨s, outs, hrun, hc, C06_checkTable_complete _ _ hc, stableTable_consistentS s hinv⟩
+
+/-- the iterators behind the rows never fault there (no out-of-bounds access, termination, no failing `debug_assert!`),
+for ANY queried index, and `adjacency_matrix` stays inside its bitmap: the empty-row default of `SGView.okOr` is never
+used, `stableTable` is the table of a panic-free dump. -/
+theorem C06_StableGraph_table_total (s : SG.State) (h : C02T.Inv s) (a : Nat) :
+    (∃ l, SG.neighborsDirected s a 0 = .ok l) ∧ (∃ l, SG.neighborsDirected s a 1 = .ok l) ∧
+    (∀ dirIn, ∃ l, SG.edgesDirected s a dirIn = .ok l) ∧
+    ∀ p ∈ SGView.adjMatrix s, p < SG.nodeBound s * SG.nodeBound s :=
+  SGW3.stableTable_no_fault s h a
+
+/-- every adaptor stack over a `StableGraph` satisfying the invariant is consistent (composition with `C06_stack`). -/
+theorem C06_StableGraph_stack (s : SG.State) (h : C02T.Inv s) (stack : List Op)
+    (hok : StackOk (stableTable s).directed stack) (hfo : Op.frozenOwned ∉ stack) :
+    TableConsistent (SG.nodeIndices s) (applyStack Cfg.ideal stack (stableTable s)) ∧
+      abs (applyStack Cfg.ideal stack (stableTable s)) = specStack stack (abs (stableTable s)) :=
+  C06_stack _ stack _ hok hfo (C06_consistent_StableGraph s h)
+
+/-- `Frozen<'_, StableGraph>` (the harness's `frz0` view over `StableGraph`): strengthened predicate and every clause
+against the graph it freezes. -/
+theorem C06_frozenOwned_StableGraph (s : SG.State) (h : C02T.Inv s) :
+    TableConsistentS (SG.nodeIndices s) (frozenOwned (stableTable s)) ∧
+    TableConsistent (SG.nodeIndices s) (groundedIn (stableTable s) (frozenOwned (stableTable s))) :=
+  ⟨frozenOwned_consistentS (stableTable_consistentS s h), frozenOwned_grounded (SGW3.stableTable_consistent s h)⟩
+
+/-- non-vacuity: a history that leaves a vacant node slot 0 and a vacant edge slot 0 below the bounds (a multi-edge
+pair, a self-loop); the table is the non-trivial one: live ids `1, 2`, `node_count = 2 < node_bound = 3`. -/
+example :
+    ((SG.run (SG.empty true 4294967295 false true)
+        [.addNode 11, .addNode 12, .addNode 13, .addEdge 0 1 5, .addEdge 1 2 6, .addEdge 2 2 7, .addEdge 1 2 8,
+         .removeNode 0]).toOption.map fun p =>
+      decide ((stableTable p.1).ids = some [1, 2] ∧ (stableTable p.1).nodeCount = some 2 ∧
+        (stableTable p.1).nodeBound = 3 ∧
+        (stableTable p.1).erefs = some [⟨1, 1, 2, 6⟩, ⟨2, 2, 2, 7⟩, ⟨3, 1, 2, 8⟩] ∧
+        (stableTable p.1).edgeCount = some 3 ∧ (stableTable p.1).edgeBound = some 4 ∧
+        (stableTable p.1).adj = some [(1, [2]), (2, [2])] ∧
+        (stableTable p.1).nbrsIn = some [(1, []), (2, [1, 2, 1])])) = some true := by decide
+
+/-! #### 3. the adaptors AS THE CODE IS
+
+`Cfg.asIs` is the code as it stands (the switches of the findings still open in /repo are on).  Every theorem of this
+section is proved for an ARBITRARY setting `cfg` of the two switches and then read at `Cfg.asIs`, so it holds whichever
+of D23 / D24 are open; the hypotheses `Cfg.asIs.d24 = false` / `Cfg.asIs.d23 = false` of the "full" variants are decidable
+facts about the current definition of `Cfg.asIs` (`by decide` proves the one whose finding is repaired). -/
+
+/-- `Reversed` for any setting of the switches: it IS the ideal `Reversed` on every trait, except that with the D24 switch
+on `adjacency_matrix` / `is_adjacent` are the inner graph's (that is D24, all of it). -/
+theorem C06_reversed_cfg (cfg : Cfg) (t : Table) :
+    reversed cfg t = { reversed Cfg.ideal t with adj := if cfg.d24 then t.adj else (reversed Cfg.ideal t).adj } :=
+  reversed_cfg_eq cfg t
+
+/-- `Reversed` as it is: the ideal adaptor — hence consistent — on every trait but `is_adjacent`, and it presents the
+reversed abstract graph. -/
+theorem C06_reversed_asIs (qs : List Nat) (t : Table) (h : TableConsistent qs t) :
+    { reversed Cfg.asIs t with adj := none } = { reversed Cfg.ideal t with adj := none } ∧
+    TableConsistent qs { reversed Cfg.asIs t with adj := none } ∧
+    abs (reversed Cfg.asIs t) = (abs t).reverse :=
+  ⟨reversed_cfg_dropAdj Cfg.asIs t, reversed_cfg_consistent Cfg.asIs h, abs_applyOp Cfg.asIs .rev t (by decide)⟩
+
+/-- over an UNDIRECTED inner view D24 is invisible: `Reversed` as it is satisfies every clause. -/
+theorem C06_reversed_asIs_undirected (qs : List Nat) (t : Table) (hd : t.directed = false)
+    (h : TableConsistent qs t) : TableConsistent qs (reversed Cfg.asIs t) :=
+  reversed_cfg_consistent_undirected Cfg.asIs hd h
+
+/-- once D24 is repaired in the code (its switch off in `Cfg.asIs`), `Reversed` as it is IS the ideal adaptor and
+satisfies every clause, `is_adjacent` included. -/
+theorem C06_reversed_asIs_full (h24 : Cfg.asIs.d24 = false) (qs : List Nat) (t : Table) (h : TableConsistent qs t) :
+    reversed Cfg.asIs t = reversed Cfg.ideal t ∧ TableConsistent qs (reversed Cfg.asIs t) := by
+  have e := reversed_eq_ideal Cfg.asIs h24 t
+  exact ⟨e, e ▸ reversed_consistent h⟩
+
+/-- `UndirectedAdaptor` as it is: the ideal adaptor on every trait but `neighbors` / `edges` (that is D23, all of it),
+consistent there, and it presents the symmetrised abstract graph. -/
+theorem C06_undirectedAdaptor_asIs (qs : List Nat) (t : Table) (h : TableConsistent qs t) :
+    { undirected Cfg.asIs t with nbrs := none, edges := none } =
+      { undirected Cfg.ideal t with nbrs := none, edges := none } ∧
+    TableConsistent qs { undirected Cfg.asIs t with nbrs := none, edges := none } ∧
+    abs (undirected Cfg.asIs t) = (abs t).symmetrise := by
+  have e : ({ undirected Cfg.asIs t with nbrs := none, edges := none } : Table) = dropD (undirected Cfg.asIs t) := rfl
+  exact ⟨rfl, e ▸ undirected_cfg_consistent Cfg.asIs h, abs_applyOp Cfg.asIs .und t (by decide)⟩
+
+/-- ANY depth: a stack AS IT IS that contains no `UndirectedAdaptor`, with its `GetAdjacencyMatrix` entry dropped, is
+the ideal stack with that entry dropped — hence consistent — and presents the composition of the abstract operations. -/
+theorem C06_stack_asIs_without_und (qs : List Nat) (ops : List Op) (t : Table) (hund : Op.und ∉ ops)
+    (hok : StackOk t.directed ops) (hfo : Op.frozenOwned ∉ ops) (h : TableConsistent qs t) :
+    { applyStack Cfg.asIs ops t with adj := none } = { applyStack Cfg.ideal ops t with adj := none } ∧
+    TableConsistent qs { applyStack Cfg.asIs ops t with adj := none } ∧
+    abs (applyStack Cfg.asIs ops t) = specStack ops (abs t) :=
+  ⟨(applyStack_cfg_without_und Cfg.asIs ops t hund hok h).1, (applyStack_cfg_without_und Cfg.asIs ops t hund hok h).2,
+   abs_applyStack Cfg.asIs ops t hfo⟩
+
+/-- … and once D24 is repaired in the code (its switch off in `Cfg.asIs`) such a stack IS the ideal stack: consistent on
+every trait, `is_adjacent` included. -/
+theorem C06_stack_asIs_without_und_full (h24 : Cfg.asIs.d24 = false) (qs : List Nat) (ops : List Op) (t : Table)
+    (hund : Op.und ∉ ops) (hok : StackOk t.directed ops) (h : TableConsistent qs t) :
+    applyStack Cfg.asIs ops t = applyStack Cfg.ideal ops t ∧ TableConsistent qs (applyStack Cfg.asIs ops t) := by
+  have e := applyStack_cfg_eq_ideal Cfg.asIs ops (.inl h24) (.inr hund) t
+  exact ⟨e, e ▸ applyStack_consistent ops t hok h⟩
+
+/-- a stack as it is with neither `Reversed` nor `UndirectedAdaptor` (`NodeFiltered`, `EdgeFiltered`, `Frozen`, `&G`, to
+any depth) IS the ideal stack: consistent on every trait. -/
+theorem C06_stack_asIs_without_rev_und (qs : List Nat) (ops : List Op) (t : Table) (hrev : Op.rev ∉ ops)
+    (hund : Op.und ∉ ops) (hok : StackOk t.directed ops) (h : TableConsistent qs t) :
+    applyStack Cfg.asIs ops t = applyStack Cfg.ideal ops t ∧ TableConsistent qs (applyStack Cfg.asIs ops t) := by
+  have e := applyStack_cfg_eq_ideal Cfg.asIs ops (.inr hrev) (.inr hund) t
+  exact ⟨e, e ▸ applyStack_consistent ops t hok h⟩
+
+/-- EVERY stack as it is — `Reversed` and `UndirectedAdaptor` included, any depth — agrees with the ideal stack on all
+traits but `neighbors`, `edges`, `is_adjacent` (identifiers, references, counts, both index traits, `edge_references`,
+`neighbors_directed`, `edges_directed`) and is consistent there: the two findings reach nothing else. -/
+theorem C06_stack_asIs_unaffected (qs : List Nat) (ops : List Op) (t : Table)
+    (hok : StackOk t.directed ops) (h : TableConsistent qs t) :
+    { applyStack Cfg.asIs ops t with nbrs := none, edges := none, adj := none } =
+      { applyStack Cfg.ideal ops t with nbrs := none, edges := none, adj := none } ∧
+    TableConsistent qs { applyStack Cfg.asIs ops t with nbrs := none, edges := none, adj := none } :=
+  applyStack_cfg_unaffected Cfg.asIs ops t hok h
+
+/-- the as-is theorems are not vacuous on the DESIGN witness `w1` (on which the recorded behaviour of D24 violates the
+property, `C06_D24_counterexample`): with `is_adjacent` set aside `Reversed` as it is and a depth-3 as-is stack are
+consistent. -/
+example : TableConsistent [0, 1, 2] { reversed Cfg.asIs w1 with adj := none } :=
+  (C06_reversed_asIs _ _ (C06_checkTable_sound _ _ (by decide))).2.1
+example : TableConsistent [0, 1, 2] { applyStack Cfg.asIs [.nf 5, .rev, .ef 6] w1 with adj := none } :=
+  (C06_stack_asIs_without_und _ _ _ (by simp) (by simp [StackOk, dirAfter, w1]) (by simp)
+    (C06_checkTable_sound _ _ (by decide))).2.1
+
+/-! #### 4. the tables denote the graphs of the storage specifications -/
+
+/-- `Graph`: the abstract graph the table denotes is the graph of the C01 reference multigraph (`C01T.absG`, for every
+ghost stamp assignment; in particular of `C01T.abs`): nodes `0..n`, the edge at position `i` is `(i, src, tgt, weight)`;
+and `node_references` are the reference node weights. -/
+theorem C06_table_abs_Graph (s : G.State) (st : Nat → Nat) (ck : Nat) :
+    abs (graphTable s) = agraphOfCGS (C01T.absG s st ck) ∧
+    (graphTable s).refs = some (refsOfCGS (C01T.absG s st ck)) :=
+  graphTable_abs s st ck
+
+/-- `GraphMap`: the abstract graph the table denotes IS the C03 simple graph on node values (`C03T.abs`): same kind, the
+node list enumerates the node set once, the edge list has one reference per (un)ordered pair carrying the pair's weight. -/
+theorem C06_table_abs_GraphMap (s : GM.State) (h : C03T.Inv s) : DenotesSG (abs (graphMapTable s)) (C03T.abs s) :=
+  graphMapTable_abs s h
+
+/-- `StableGraph`: the abstract graph the table denotes is the graph of the C02 reference multigraph (`C02T.abs`): the
+live node indices, the live edges under their indices; `node_references` are the reference's. -/
+theorem C06_table_abs_StableGraph (s : SG.State) :
+    abs (stableTable s) = agraphOfSGSpec (C02T.abs s) ∧ (stableTable s).refs = some (C02T.abs s).nodeRefs :=
+  stableTable_abs s
 
 end PetgraphModel.C06T
